@@ -219,7 +219,9 @@ UNIX_PLAIN = ["/run/dbus/system_bus_socket", "/tmp/.X11-unix/X0", "/run/user/100
 UNIX_SPACE = ["/tmp/my sock", "/tmp/a b c/s", "/run/My App/ipc.sock", "/tmp/x y", "/tmp/dir with  two spaces/s",
               "/tmp/tmpaa0y0lpu/my sock"]
 # white space the kernel prints verbatim: a leading blank or tab, a carriage return inside the name (any user may bind these)
-UNIX_ODD = [" lead", "\tTab", " ", "/tmp/a\rb", "a\r b c", "/tmp/cr\r", "/tmp/x\r\ny"[:7]]
+UNIX_ODD = [" lead", "\tTab", " ", "/tmp/a\rb", "a\r b c", "/tmp/cr\r", "/tmp/x\r\ny"[:7],
+            # ... or a line feed: the row then spans several lines of the table
+            "/tmp/a\nb c", "/tmp/a\nb", "/tmp/lf\n", "x\n\ny z", "/tmp/two\nline feeds\nhere", "/tmp/x\r\ny", "@abs\nname x"]
 UNIX_ABSTRACT = ["@/tmp/.X11-unix/X0", "@abstract", "@", "@@", "@a@b", "@00012", "@/tmp/dbus-Zx1"]
 UNIX_ABSTRACT_SPACE = ["@abs name", "@my app socket"]
 
@@ -805,10 +807,11 @@ def run_case(case, acc):
     acc.count("unreadable_processes", sum(1 for p in case["procs"] if not p["readable"]))
     # narrow the mechanism key when the table holds a UNIX name with white space the line parser may trip over
     odd = [s_["path"] for s_ in case["socks"] if s_["proto"] == "unix" and s_.get("path")
-           and ("\r" in s_["path"] or s_["path"] != s_["path"].lstrip())]
+           and ("\r" in s_["path"] or "\n" in s_["path"] or s_["path"] != s_["path"].lstrip())]
     if odd:
         acc.count("tables_with_odd_whitespace_in_a_unix_name")
-        feat = ":unix_name_with_carriage_return" if any("\r" in o for o in odd) else ":unix_name_with_leading_whitespace"
+        feat = (":unix_name_with_line_feed" if any("\n" in o for o in odd) else
+                ":unix_name_with_carriage_return" if any("\r" in o for o in odd) else ":unix_name_with_leading_whitespace")
         viols = [(m + feat if ("unix" in m or m.startswith("exception:RuntimeError")) and not m.endswith(feat) else m, d) for m, d in viols]
     acc.case(case, nontrivial(case), viols)
 
